@@ -435,3 +435,227 @@ def inline_async(facts, body, should_inline, max_rounds=4, max_blocks=6000):
     nb = Body(j, facts)
     nb.inlined = True
     return nb
+
+
+# ---------------------------------------------------------------------------------------------
+# std combinators that take a closure literal, rewritten as the explicit control flow they stand for
+
+_OPT = ("std::option::Option<", "core::option::Option<")
+_RES = ("std::result::Result<", "core::result::Result<")
+
+
+def _new_local(j, ty, name=None):
+    j["locals"].append({"ty": ty, "name": name})
+    return len(j["locals"]) - 1
+
+
+def _new_block(j, stmts, term):
+    j["blocks"].append({"stmts": stmts, "term": term, "cleanup": False})
+    return len(j["blocks"]) - 1
+
+
+def _mv(l, proj=()):
+    return {"move": {"l": l, "p": list(proj)}}
+
+
+def _assign(dst_place, rv, line):
+    return {"k": "assign", "dst": copy.deepcopy(dst_place), "rv": rv, "line": line, "synthetic": True}
+
+
+def _agg(adt, variant, idx, ops):
+    return {"k": "agg", "agg": "adt", "adt": adt, "variant": variant, "variant_idx": idx, "ops": ops, "fields": ["0"] if ops else []}
+
+
+def _closure_of(facts, j, defs, op):
+    c = op.get("const") if isinstance(op, dict) else None
+    if c is not None and c.get("fn"):
+        # a function item used as the closure: `iter.any(needs_reference)`
+        fb = facts.by_id.get(c["fn"])
+        if fb is not None and fb.kind in ("Fn", "AssocFn") and not any(x.kind.startswith("coroutine") for x in facts.children.get(fb.id, [])):
+            return fb, {}
+        return None, None
+    src = _trace_value(j, defs, op)
+    if src is None or src[0] != "agg" or src[2]["rv"].get("agg") != "closure":
+        return None, None
+    cb = facts.by_id.get(src[2]["rv"].get("def"))
+    if cb is None:
+        return None, None
+    return cb, {k: o for k, o in enumerate(src[2]["rv"]["ops"])}
+
+
+def _call_closure(facts, j, cb, upvar_ops, at_block, args, dst_place, cont, line):
+    """make block `at_block` jump into closure cb(args..) whose result goes to dst_place, continuing at `cont`"""
+    cj = copy.deepcopy((facts.inlined.get(cb.id, cb) if hasattr(facts, "inlined") else cb).j)
+
+    def ret_stmt(loff, ln, dst=dst_place):
+        return _assign(dst, {"k": "use", "op": _mv(loff)}, ln)
+    first = 2 if cb.kind.startswith("closure") else 1      # a closure's first local is its environment
+    binds = [(first + i, a) for i, a in enumerate(args[: max(0, cb.arg_count - (first - 1))])]
+    boff = _splice(j, cj, upvar_ops, at_block, ret_stmt, cont, arg_binds=binds)
+    j["blocks"][at_block]["term"] = {"k": "goto", "target": boff, "line": line, "inlined_call": cb.id}
+
+
+def _ty_of(j, op):
+    p = _place_of(op)
+    if p is None or p["p"]:
+        return ""
+    return j["locals"][p["l"]]["ty"]
+
+
+def desugar_combinators(facts, body, max_rounds=3, max_blocks=6000, iterators=True):
+    """Replace calls of Option / Result / Iterator / bool combinators whose closure argument is a closure literal of
+    this crate by the control flow they abbreviate (match / loop), with the closure's body spliced in. Rules written
+    for `match x { Some(v) => .., None => .. }` and `for e in it { if p(e) { return true } }` then apply unchanged to
+    `x.and_then(..)`, `x.map_or(d, ..)`, `it.any(..)`, `it.all(..)`, `it.find_map(..)`."""
+    j = copy.deepcopy(body.j)
+    did = False
+    for _round in range(max_rounds):
+        progressed = False
+        defs = _defs_of(j)
+        nblocks = len(j["blocks"])
+        if nblocks > max_blocks:
+            break
+        for bi in range(nblocks):
+            t = j["blocks"][bi]["term"]
+            if t["k"] != "call" or t.get("target") is None or t["func"].get("local"):
+                continue
+            name = t["func"].get("resolved") or t["func"].get("def") or ""
+            m = re.search(r"(Option|Result)::<.*>::(and_then|map|map_err|map_or|map_or_else|unwrap_or_else|ok_or_else|is_some_and|is_ok_and|is_none_or)$", name)
+            line = t.get("line")
+            dst, cont, args = t["dst"], t["target"], t["args"]
+            if m and args:
+                kind, op = m.group(1), m.group(2)
+                recv = _place_of(args[0])
+                if recv is None or recv["p"]:
+                    continue
+                rty = j["locals"][recv["l"]]["ty"]
+                is_opt = rty.startswith(_OPT)
+                is_res = rty.startswith(_RES)
+                if not (is_opt or is_res):
+                    continue
+                good_idx = 1 if is_opt else 0            # Some / Ok
+                bad_idx = 1 - good_idx
+                good_v, bad_v = ("Some", "None") if is_opt else ("Ok", "Err")
+                adt = "std::option::Option" if is_opt else "std::result::Result"
+                fpos = {"map_or": 2, "map_or_else": 2}.get(op, 1)
+                if len(args) <= fpos:
+                    continue
+                cb, ups = _closure_of(facts, j, defs, args[fpos])
+                cb2 = ups2 = None
+                if op == "map_or_else":
+                    cb2, ups2 = _closure_of(facts, j, defs, args[1])
+                    if cb2 is None:
+                        continue
+                if cb is None:
+                    continue
+                x = _new_local(j, "?payload")
+                good_payload = _mv(recv["l"], [{"downcast": good_idx, "name": good_v}, {"f": 0}])
+                bad_payload = _mv(recv["l"], [{"downcast": bad_idx, "name": bad_v}, {"f": 0}])
+                dstl = copy.deepcopy(dst)
+                # result of the closure goes to tmp r; arms build dst
+                r = _new_local(j, "?closure-result")
+                rp = {"l": r, "p": []}
+                on_bad_closure = op in ("map_err", "unwrap_or_else", "ok_or_else", "map_or_else")
+                # --- the arm in which the main closure runs
+                after = _new_block(j, [], {"k": "goto", "target": cont, "line": line})
+                run = _new_block(j, [], {"k": "goto", "target": after, "line": line})
+                other = _new_block(j, [], {"k": "goto", "target": cont, "line": line})
+                if op in ("and_then", "map", "map_or", "map_or_else", "is_some_and", "is_ok_and", "is_none_or"):
+                    run_idx = good_idx
+                    j["blocks"][run]["stmts"].append(_assign({"l": x, "p": []}, {"k": "use", "op": good_payload}, line))
+                    _call_closure(facts, j, cb, ups, run, [_mv(x)], rp, after, line)
+                    if op in ("and_then", "map_or", "map_or_else", "is_some_and", "is_ok_and", "is_none_or"):
+                        j["blocks"][after]["stmts"].append(_assign(dstl, {"k": "use", "op": _mv(r)}, line))
+                    else:   # map
+                        j["blocks"][after]["stmts"].append(_assign(dstl, _agg(adt, good_v, good_idx, [_mv(r)]), line))
+                    # the other arm
+                    if op == "and_then" or op == "map":
+                        j["blocks"][other]["stmts"].append(_assign(dstl, _agg(adt, bad_v, bad_idx, [] if is_opt else [bad_payload]), line))
+                    elif op == "map_or":
+                        j["blocks"][other]["stmts"].append(_assign(dstl, {"k": "use", "op": copy.deepcopy(args[1])}, line))
+                    elif op == "map_or_else":
+                        _call_closure(facts, j, cb2, ups2, other, [] if is_opt else [bad_payload], dstl, cont, line)
+                    elif op in ("is_some_and", "is_ok_and"):
+                        j["blocks"][other]["stmts"].append(_assign(dstl, {"k": "use", "op": {"const": {"ty": "bool", "int": 0, "text": "false"}}}, line))
+                    elif op == "is_none_or":
+                        j["blocks"][other]["stmts"].append(_assign(dstl, {"k": "use", "op": {"const": {"ty": "bool", "int": 1, "text": "true"}}}, line))
+                else:
+                    run_idx = bad_idx
+                    if not is_opt:
+                        j["blocks"][run]["stmts"].append(_assign({"l": x, "p": []}, {"k": "use", "op": bad_payload}, line))
+                    _call_closure(facts, j, cb, ups, run, [] if is_opt else [_mv(x)], rp, after, line)
+                    if op == "map_err":
+                        j["blocks"][after]["stmts"].append(_assign(dstl, _agg(adt, "Err", 1, [_mv(r)]), line))
+                        j["blocks"][other]["stmts"].append(_assign(dstl, _agg(adt, "Ok", 0, [good_payload]), line))
+                    elif op == "unwrap_or_else":
+                        j["blocks"][after]["stmts"].append(_assign(dstl, {"k": "use", "op": _mv(r)}, line))
+                        j["blocks"][other]["stmts"].append(_assign(dstl, {"k": "use", "op": good_payload}, line))
+                    elif op == "ok_or_else":
+                        j["blocks"][after]["stmts"].append(_assign(dstl, _agg("std::result::Result", "Err", 1, [_mv(r)]), line))
+                        j["blocks"][other]["stmts"].append(_assign(dstl, _agg("std::result::Result", "Ok", 0, [good_payload]), line))
+                d = _new_local(j, "isize")
+                j["blocks"][bi]["stmts"].append({"k": "assign", "dst": {"l": d, "p": []}, "rv": {"k": "discr", "place": {"l": recv["l"], "p": []}}, "line": line, "synthetic": True})
+                j["blocks"][bi]["term"] = {"k": "switch", "discr": _mv(d), "arms": [[run_idx, run], [1 - run_idx, other]], "otherwise": other, "line": line, "desugared": name}
+                progressed = did = True
+                defs = _defs_of(j)
+                continue
+            m = re.search(r"Iterator>?::(any|all|find_map|find)$|iter::Iterator::(any|all|find_map|find)$", name) if iterators else None
+            if m and len(args) >= 2:
+                op = m.group(1) or m.group(2)
+                cb, ups = _closure_of(facts, j, defs, args[1])
+                if cb is None:
+                    continue
+                ity = re.sub(r"^&\s*('\w+\s+)?(mut\s+)?", "", _ty_of(j, args[0]))
+                n = _new_local(j, "std::option::Option<?item>")
+                x = _new_local(j, "?item")
+                r = _new_local(j, "bool" if op in ("any", "all", "find") else "std::option::Option<?>")
+                d = _new_local(j, "isize")
+                dstl = copy.deepcopy(dst)
+                itop = {"copy": copy.deepcopy(_place_of(args[0]))}
+                done_hit = _new_block(j, [], {"k": "goto", "target": cont, "line": line})
+                done_end = _new_block(j, [], {"k": "goto", "target": cont, "line": line})
+                test = _new_block(j, [], {"k": "goto", "target": done_hit, "line": line})
+                some = _new_block(j, [_assign({"l": x, "p": []}, {"k": "use", "op": _mv(n, [{"downcast": 1, "name": "Some"}, {"f": 0}])}, line)],
+                                  {"k": "goto", "target": test, "line": line})
+                sw = _new_block(j, [{"k": "assign", "dst": {"l": d, "p": []}, "rv": {"k": "discr", "place": {"l": n, "p": []}}, "line": line, "synthetic": True}],
+                                {"k": "switch", "discr": _mv(d), "arms": [[0, done_end], [1, some]], "otherwise": done_end, "line": line})
+                head = _new_block(j, [], {"k": "call", "func": {"def": "std::iter::Iterator::next", "resolved": "<%s as std::iter::Iterator>::next" % re.sub(r"<.*>", "<T>", ity.split("<")[0] + ("<T>" if "<" in ity else "")),
+                                                                "full": "<%s as std::iter::Iterator>::next" % ity, "resolved_full": "<%s as std::iter::Iterator>::next" % ity,
+                                                                "local": False, "krate": "core"},
+                                          "args": [itop], "dst": {"l": n, "p": []}, "target": sw, "unwind": None, "line": line, "desugared": name})
+                if op == "find":
+                    rx = _new_local(j, "&?item")
+                    j["blocks"][some]["stmts"].append(_assign({"l": rx, "p": []}, {"k": "ref", "mut": False, "place": {"l": x, "p": []}}, line))
+                    _call_closure(facts, j, cb, ups, some, [_mv(rx)], {"l": r, "p": []}, test, line)
+                else:
+                    _call_closure(facts, j, cb, ups, some, [_mv(x)], {"l": r, "p": []}, test, line)
+                if op in ("any", "all", "find"):
+                    hit_val = 1 if op in ("any", "find") else 0
+                    j["blocks"][test]["term"] = {"k": "switch", "discr": {"copy": {"l": r, "p": []}}, "arms": [[0, head if hit_val == 1 else done_hit]],
+                                                 "otherwise": done_hit if hit_val == 1 else head, "line": line}
+                    if op == "any":
+                        j["blocks"][done_hit]["stmts"].append(_assign(dstl, {"k": "use", "op": {"const": {"ty": "bool", "int": 1, "text": "true"}}}, line))
+                        j["blocks"][done_end]["stmts"].append(_assign(dstl, {"k": "use", "op": {"const": {"ty": "bool", "int": 0, "text": "false"}}}, line))
+                    elif op == "all":
+                        j["blocks"][done_hit]["stmts"].append(_assign(dstl, {"k": "use", "op": {"const": {"ty": "bool", "int": 0, "text": "false"}}}, line))
+                        j["blocks"][done_end]["stmts"].append(_assign(dstl, {"k": "use", "op": {"const": {"ty": "bool", "int": 1, "text": "true"}}}, line))
+                    else:
+                        j["blocks"][done_hit]["stmts"].append(_assign(dstl, _agg("std::option::Option", "Some", 1, [_mv(x)]), line))
+                        j["blocks"][done_end]["stmts"].append(_assign(dstl, _agg("std::option::Option", "None", 0, []), line))
+                else:   # find_map
+                    d2 = _new_local(j, "isize")
+                    j["blocks"][test]["stmts"].append({"k": "assign", "dst": {"l": d2, "p": []}, "rv": {"k": "discr", "place": {"l": r, "p": []}}, "line": line, "synthetic": True})
+                    j["blocks"][test]["term"] = {"k": "switch", "discr": _mv(d2), "arms": [[0, head], [1, done_hit]], "otherwise": head, "line": line}
+                    j["blocks"][done_hit]["stmts"].append(_assign(dstl, {"k": "use", "op": _mv(r)}, line))
+                    j["blocks"][done_end]["stmts"].append(_assign(dstl, _agg("std::option::Option", "None", 0, []), line))
+                j["blocks"][bi]["term"] = {"k": "goto", "target": head, "line": line, "desugared": name}
+                progressed = did = True
+                defs = _defs_of(j)
+                continue
+        if not progressed:
+            break
+    if not did:
+        return body
+    nb = Body(j, facts)
+    nb.inlined = True
+    return nb
